@@ -28,6 +28,8 @@ CONSTANTS NP,          \* physical ports 1..NP  (NP >= 2)
           Cap,         \* bound on counters (state constraint of the exhaustive runs)
           D,           \* export depth
           Skip,        \* action tags removed from Next (deep simulation around open findings)
+          ResOut,      \* the reserved port (OFPP_CONTROLLER, FLOOD, ...) flow f3 outputs to
+          ResOther,    \* another reserved port, which no flow outputs to
           Thin         \* TRUE: one or two representatives per argument class (all paths, depth 3)
 
 Ports   == 1..NP
@@ -35,8 +37,13 @@ Absent  == 9           \* a port number below OFPP_MAX that the switch does not 
 BadAct  == 65000       \* stands for an action of a type the switch does not support
 PAll    == 65532       \* OFPP_ALL
 PNone   == 65535       \* OFPP_NONE
-Flows   == {"f1", "f2"}
-OutOf(f) == IF f = "f1" THEN 2 ELSE 1      \* the flow's single output action
+Flows   == {"f1", "f2", "f3"}
+FlowOrder == <<"f1", "f2", "f3">>
+\* the flow's single output action: two physical ports and a reserved one.  No
+\* frame of the model matches f3 (what output to a reserved port does is C12's);
+\* it exists for what flow / aggregate statistics must report and filter.
+OutOf(f) == CASE f = "f1" -> 2 [] f = "f2" -> 1 [] f = "f3" -> ResOut
+RxKinds == {"f1", "f2", "miss"}
 FrameLen == 60                             \* every dataplane frame of the model
 MissLens == {0, 128, 65535}
 Bodies   == {"", "b1"}                     \* echo payload symbols
@@ -73,9 +80,12 @@ One(m) == << <<m>> >>
 
 \* what a barrier reply certifies, and what the probe after a step reads back
 FlowSeq(S, pk) == \* flows of S in name order with their counters
-  LET a == IF "f1" \in S THEN <<[f |-> "f1", pk |-> pk["f1"], by |-> pk["f1"] * FrameLen]>> ELSE <<>>
-      b == IF "f2" \in S THEN <<[f |-> "f2", pk |-> pk["f2"], by |-> pk["f2"] * FrameLen]>> ELSE <<>>
-  IN a \o b
+  LET RECURSIVE Go(_)
+      Go(i) == IF i > Len(FlowOrder) THEN <<>>
+               ELSE LET f == FlowOrder[i] IN
+                    (IF f \in S THEN <<[f |-> f, pk |-> pk[f], by |-> pk[f] * FrameLen]>> ELSE <<>>)
+                    \o Go(i + 1)
+  IN Go(1)
 PortSeq(S, rx, tx) == \* S a subset of Ports, ascending
   LET RECURSIVE Go(_)
       Go(p) == IF p > NP THEN <<>>
@@ -356,8 +366,11 @@ SReply(x, st, body) == [t |-> "STATS_REPLY", xid |-> x, st |-> st, more |-> 0, b
 SLog(x, st, args, outs) == Log("StatsReq", "Stats-" \o st, [xid |-> x, st |-> st] @@ args, outs)
 
 \* flows selected by a flow/aggregate request: table 255 (all) or 0 is the one
-\* table; m is "all" or a flow name (its exact match); outp filters on the
-\* output action (PNone: no filter)
+\* table; m is "all", a flow name (its exact match) or "f1x" (f1's match made
+\* more specific by an in_port: an entry is selected only if it is at least as
+\* specific as the request, so nothing is); outp filters on the output action:
+\* OFPP_NONE = no filter, ANY other value - physical, absent or reserved port -
+\* selects exactly the flows with an output action to that port
 Sel(tb, m, outp) ==
   IF tb \notin {0, 255} THEN {}
   ELSE {f \in fs : (m = "all" \/ m = f) /\ (outp = PNone \/ OutOf(f) = outp)}
@@ -412,16 +425,21 @@ XidNow == IF RotXid THEN {Xids[(Len(hist) % Len(Xids)) + 1]}
           ELSE {Xids[i] : i \in 1..Len(Xids)}
 
 PoActs   == IF Thin THEN {2, BadAct} ELSE {1, 2, Absent, 0, BadAct}
-FlowArgs == IF Thin THEN {<<255, "all", PNone>>, <<5, "all", PNone>>}
-            ELSE {<<0, "all", PNone>>, <<255, "all", PNone>>, <<0, "f1", PNone>>,
-                  <<255, "f2", PNone>>, <<255, "all", 2>>, <<5, "all", PNone>>}
+OutFilters == {PNone, 1, 2, Absent, ResOut, ResOther}
+FlowArgs == IF Thin THEN {<<255, "all", PNone>>, <<5, "all", PNone>>, <<255, "all", ResOut>>}
+            ELSE ({255} \X {"all"} \X OutFilters)                       \* every filter value
+                 \cup {<<0, "all", PNone>>, <<0, "all", ResOut>>, <<0, "all", 2>>}
+                 \cup {<<0, "f1", PNone>>, <<255, "f1", 2>>, <<255, "f1", ResOut>>, <<255, "f1x", PNone>>,
+                        <<255, "f2", PNone>>, <<255, "f2", 2>>,
+                        <<255, "f3", ResOut>>, <<255, "f3", 2>>, <<0, "f3", PNone>>}
+                 \cup {<<5, "all", PNone>>, <<5, "all", ResOut>>, <<1, "all", PNone>>, <<254, "all", PNone>>}
 CfgArgs  == IF Thin THEN {<<1, 0>>, <<0, 65535>>} ELSE {0, 1} \X MissLens
 TFlows   == IF Thin THEN {"f1"} ELSE Flows
 TPorts   == IF Thin THEN {2} ELSE Ports
 SPorts   == IF Thin THEN {PNone, Absent} ELSE Ports \cup {PNone, Absent}
 QArgs    == IF Thin THEN {<<PAll, 0>>, <<1, 1>>} ELSE {PAll, 1, Absent} \X {0, 1}
 QPorts   == IF Thin THEN {1, Absent} ELSE {1, Absent, PAll}
-RxArgs   == IF Thin THEN {<<1, "f1">>, <<1, "miss">>} ELSE Ports \X (Flows \cup {"miss"})
+RxArgs   == IF Thin THEN {<<1, "f1">>, <<1, "miss">>} ELSE Ports \X RxKinds
 
 Step(x) ==
   \/ Hello(x)
@@ -533,8 +551,14 @@ RepliesReflectState ==
            LET b == e.exp.outs[1][1].body[1] IN
            /\ b.n <= Cardinality(fs)
            /\ (e.args.tb \in {0, 255} /\ e.args.m = "all" /\ e.args.outp = PNone =>
-                 b.n = Cardinality(fs) /\ b.pk = fpk["f1"] + fpk["f2"])
+                 b.n = Cardinality(fs) /\ b.pk = fpk["f1"] + fpk["f2"] + fpk["f3"])
            /\ (e.args.tb \notin {0, 255} => b.n = 0 /\ b.pk = 0))
+     /\ (e.tag \in {"Stats-FLOW", "Stats-AGGREGATE"} /\ e.args.outp # PNone =>
+           \* a filter on an output port - reserved ports included - selects only flows that output there
+           LET S == Sel(e.args.tb, e.args.m, e.args.outp) IN
+           /\ \A f \in S : OutOf(f) = e.args.outp
+           /\ (e.tag = "Stats-FLOW" => Len(e.exp.outs[1][1].body) = Cardinality(S))
+           /\ (e.tag = "Stats-AGGREGATE" => e.exp.outs[1][1].body[1].n = Cardinality(S)))
      /\ (e.tag = "Stats-FLOW" =>
            LET b == e.exp.outs[1][1].body IN
            /\ \A i \in DOMAIN b : b[i].f \in fs /\ b[i].pk = fpk[b[i].f]
@@ -547,7 +571,7 @@ RepliesReflectState ==
            \A p \in Ports : e.exp.outs[1][1].ports[p].down = down[p])]_vars
 
 \* every matched packet is counted in exactly one flow, until that flow goes
-MatchedAccounted == mat >= fpk["f1"] + fpk["f2"]
+MatchedAccounted == mat >= fpk["f1"] + fpk["f2"] + fpk["f3"]
 
 \* a request never changes the state; SET_CONFIG is seen by the next GET_CONFIG
 RequestsReadOnly == [][last'.a \in Requests => state' = state]_vars
